@@ -206,6 +206,45 @@ func (p *Prog) lenDomainFor(fn *ssa.Function) []int64 {
 	return out
 }
 
+// cmpConstsFor: the values around every integer constant that a comparison in fn's call tree involves.
+func (p *Prog) cmpConstsFor(fn *ssa.Function) []int64 {
+	key := "cmpconsts:" + qname(fn)
+	if v, ok := p.cache[key]; ok {
+		return v.([]int64)
+	}
+	set := map[int64]bool{}
+	for g := range p.Reach([]*ssa.Function{fn}) {
+		for _, b := range g.Blocks {
+			for _, ins := range b.Instrs {
+				bo, ok := ins.(*ssa.BinOp)
+				if !ok {
+					continue
+				}
+				switch bo.Op {
+				case token.LSS, token.LEQ, token.GTR, token.GEQ, token.EQL, token.NEQ:
+				default:
+					continue
+				}
+				for _, o := range []ssa.Value{bo.X, bo.Y} {
+					if k, isC := constInt(o); isC && k > -(1<<40) && k < 1<<40 {
+						set[k-1], set[k], set[k+1] = true, true, true
+					}
+				}
+			}
+		}
+	}
+	var out []int64
+	for k := range set {
+		out = append(out, k)
+	}
+	sort.Slice(out, func(i, j int) bool { return out[i] < out[j] })
+	if len(out) > 24 {
+		out = out[:24]
+	}
+	p.cache[key] = out
+	return out
+}
+
 func lens(vs ...int64) []sv {
 	var out []sv
 	for _, v := range vs {
